@@ -821,7 +821,7 @@ def spec_requests(ctx, cs):
 
 def sizes(ctx):
     if ctx.tier == "quick":
-        return 225, 3
+        return 240, 3
     return 4000, 4
 
 
@@ -844,7 +844,10 @@ def correspond(ctx):
                 "1/10 products / sums whose operands repeat ONE reduced sub-expression (s*s, s*w*s, (s+t)*s, s+s, nested, "
                 "three occurrences; s, t reductions over the same user-level name; semirings (add,mul) (max,add) (min,add) "
                 "(max,mul) and logaddexp/add rounded), "
-                "1/10 user-defined terms made with funsor.factory.make_funsor (15 classes: every declaration order of Bound / "
+                "1/12 the same operand twice under every associative op (add, mul, max, min, logaddexp rounded, and_/or_/xor on "
+                "Bint[2] data): (t.u).t, t.t, t.(u.t), (t.u).(t.u), ((t.u).t).u, t a leaf / a compound built twice / a reduction, "
+                "also with a free Variable inside t (the eager build stays lazy), "
+                "1/12 user-defined terms made with funsor.factory.make_funsor (15 classes: every declaration order of Bound / "
                 "Funsor / Has / Fresh parameters, one and two binders, Fresh output names; bare, followed by .reduce(op) over ALL "
                 "inputs, by (t+z).reduce(op), or by substituting an index tensor that depends on a free variable named like the "
                 "bound one; spec = Lean denote of the defining expression), "
@@ -859,7 +862,7 @@ def correspond(ctx):
     procs = launch_workers(base_seed, n, nshards, ctx.tier)
     cs = W.cases(base_seed, n)
     specs = spec_requests(ctx, cs)
-    recs = collect(procs, ctx, timeout=240 if ctx.tier == "quick" else 1500)
+    recs = collect(procs, ctx, timeout=600 if ctx.tier == "quick" else 2400)
     for cfg in CONFIGS:
         got = len(recs.get(cfg, {}))
         if got != n:
